@@ -33,10 +33,10 @@ class MySet(set):
 
 import collections as _col
 NTH = _col.namedtuple('NTH', 'a b')
-CLASSES = {'MyList': MyList, 'MyDict': MyDict, 'MySet': MySet, 'NTH': NTH, 'defaultdict': _col.defaultdict}
+CLASSES = {'MyList': MyList, 'MyDict': MyDict, 'MySet': MySet, 'NTH': NTH, 'defaultdict': _col.defaultdict, 'Counter': _col.Counter, 'deque': _col.deque}
 ENV = None
 NS = {'vlib': __import__('vlib'), 'collections': _col}
-KINDS = ['list', 'tuple', 'set', 'frozenset', 'dict', 'MyList', 'MyDict', 'MySet', 'NTH', 'DDICT']
+KINDS = ['list', 'tuple', 'set', 'frozenset', 'dict', 'MyList', 'MyDict', 'MySet', 'NTH', 'DDICT', 'COUNTER', 'DEQUE']
 HASHABLE_INNER = ['tuple', 'frozenset']
 
 
@@ -60,6 +60,11 @@ def mk(kind, children, leafs):
     if kind == 'DDICT':      # defaultdict(None, {...}): the dict argument is a dict at a nested level
         keys = [leafs.next() for _ in children]
         return ['call', 'defaultdict', [['none'], ['dict', [[k, c] for k, c in zip(keys, children)]]], []]
+    if kind == 'DEQUE':      # deque([...]): the list argument is a list at a nested level
+        return ['call', 'deque', [['list', children]], []]
+    if kind == 'COUNTER':    # Counter({...}): a dict subclass printed as a call around the dict of its most_common() order; counts distinct, so that order is fixed
+        keys = [leafs.next() for _ in range(len(children) + 2)]
+        return ['call', 'Counter', [['dict', [[k, ['int', 3 * (len(keys) - j)]] for j, k in enumerate(keys)]]], []]
     if kind == 'MyList':
         return ['sub', 'MyList', ['list', children]]
     if kind == 'MySet':
@@ -123,7 +128,7 @@ def maxlen(v):
         m = len(v)
         for k, x in v.items():
             m = max(m, maxlen(k), maxlen(x))
-    elif isinstance(v, (list, tuple, set, frozenset)):
+    elif isinstance(v, (list, tuple, set, frozenset, _col.deque)):
         m = len(v)
         for x in v:
             m = max(m, maxlen(x))
@@ -145,6 +150,11 @@ def reference(v, N, sort, depth, notices):
     if isinstance(v, _col.defaultdict):
         inner = reference(dict(v), N, sort, depth + 1, notices)
         return _col.defaultdict(v.default_factory, inner)
+    if isinstance(v, _col.Counter):
+        inner = reference(dict(v.most_common()), N, sort, depth + 1, notices)
+        return _col.Counter(inner)
+    if isinstance(v, _col.deque):
+        return _col.deque(reference(list(v), N, sort, depth + 1, notices), v.maxlen)
     if isinstance(v, dict):
         keys = list(v.keys())
         if sort:
